@@ -140,9 +140,11 @@ def classify_driver(res, prop):
         openf = core.open_findings(prop)
         for i, v in out["verdicts"].items():
             if prop in v["violated"]:
-                if prop == "C03" and v["explained"] and openf:
-                    # the as-built model explains this refused/vetoed call that changes the forest: one of the listed deviations
-                    res.add_known("C03-driver", 1, {"event": i})
+                ids = ["C03-%s" % m for m in v.get("marks", [])]
+                if prop == "C03" and v["explained"] and ids and all(x in openf for x in ids):
+                    # the as-built model explains this refused/vetoed call that changes the forest, and it exercises listed deviations only
+                    for x in ids:
+                        res.add_known(x, 1, {"driver_event": i, "call": {k: byid[i][k] for k in ("k", "n", "v", "xs", "plan", "exc")}})
                     continue
                 res.violation({"property": prop, "module": "trace-driver", "why": "recorded event %s violates %s (judged by TLC); explained by the as-built model: %s" % (
                     i, sorted(v["violated"]), v["explained"]), "event": byid[i]})
